@@ -434,6 +434,8 @@ def uncps(a):
 def describe(rec):
     """One-line human description of an observation record for VIOLATION / KNOWN-FINDING lines."""
     parts = []
+    if rec.get("e") == "obligations":
+        return "Send + Sync obligations do not compile under --features sync"
     if rec.get("e") == "session":
         fe = rec.get("failed_event", {})
         return "session event %s after %d calls: %s" % (fe.get("e"), len(rec.get("history", [])) - 1, json.dumps(fe)[:200])
